@@ -64,6 +64,13 @@ impl QueryMut for InsertNodesQuery {
             QueryValues::Multi(v) => v.iter().collect(),
         };
 
+        if self.aliases.iter().any(|alias| alias.is_empty()) {
+            return Err(DbError::query(
+                DbErrorType::NotAllowed,
+                "Empty alias is not allowed",
+            ));
+        }
+
         if values.len() < self.aliases.len() {
             return Err(DbError::query(
                 DbErrorType::NotEnoughData,
